@@ -79,8 +79,10 @@ fn check_htyp_in(
     if h & WSID != 0 {
         b.extend_from_slice(&0x0102_0304u32.to_be_bytes());
     }
+    // (in a quarter of the contexts the time stamp field holds the same word as the session id field)
+    let tmsp: u32 = if fidx % 4 == 3 { 0x0102_0304 } else { 0x0a0b_0c0d };
     if h & WTMS != 0 {
-        b.extend_from_slice(&0x0a0b_0c0du32.to_be_bytes());
+        b.extend_from_slice(&tmsp.to_be_bytes());
     }
     if h & UEH != 0 {
         b.extend_from_slice(if payload == 0 { &[0x40, 0] } else { &[0x41, 2] });
@@ -146,7 +148,7 @@ fn check_htyp_in(
         && hd.timestamp.is_some() == (h & WTMS != 0)
         && hd.ecu_id.as_deref().map_or(true, |e| e == ecu_text)
         && hd.session_id.map_or(true, |s| s == 0x0102_0304)
-        && hd.timestamp.map_or(true, |s| s == 0x0a0b_0c0d)
+        && hd.timestamp.map_or(true, |s| s == tmsp)
         && hd.message_counter == 0x5a
         && m.extended_header.is_some() == (h & UEH != 0);
     if !ok {
